@@ -162,8 +162,8 @@ type obs struct {
 // documented program cache of the expression evaluator is exercised across expressions).
 type engine struct{ t vuego.Template }
 
-func newEngine(env map[string]any) *engine {
-	return &engine{t: vuego.New(vuego.WithFuncs(funcMap())).Fill(env)}
+func newEngine(env map[string]any, text string) *engine {
+	return &engine{t: vuego.New(vuego.WithFuncs(funcMapFor(text))).Fill(env)}
 }
 
 func (e *engine) render(tpl string) (string, error) {
@@ -388,7 +388,7 @@ func checkValue(c Case, env map[string]any, pos []string) error {
 	if err != nil {
 		return err
 	}
-	eng := newEngine(env)
+	eng := newEngine(env, src)
 	if c.Fam == "expr" {
 		// the twin (same shape, same length, sibling operators) goes through the same engine first
 		if tw := twin(*c.E); tw.Text() != src {
@@ -599,7 +599,7 @@ func checkErr(c Case, env map[string]any, pos []string) error {
 			return fmt.Errorf("CHECK-BUG: %s: left operand %s=%v lets the call be skipped", src, c.WrapX, x)
 		}
 	}
-	eng := newEngine(env)
+	eng := newEngine(env, src)
 	for _, p := range pos {
 		out, err := eng.render(templateFor(p, src))
 		if err == nil {
